@@ -150,12 +150,14 @@ def gen_c11(tier, seed):
     # very coarse clocks: more than 101 batches of 100 back-to-back pairs read zero before
     # the first tick is seen, i.e. the first non-zero sample arrives when the artificial
     # delay is already long (the loop's "delayed a lot" exit must not fire on it)
-    coarse = [(10301, 1), (20301, 1)] + ([(40001, 1), (61001, 3), (20201, 1)] if big else [])
+    # (the loop's artificial delay grows by one per 100 pairs, so the work is quadratic in the
+    # ratio: these few are what a debug build affords)
+    coarse = [(10301, 1), (20301, 1)] + ([(12011, 1)] if big else [])
     for (q, r) in quants + coarse:
         for start in ((0, 1, 5) if q < 10000 else (1,)):
             if not any((start + 2 * r * i + r) // q > (start + 2 * r * i) // q for i in range(q + 1)):
                 continue      # no start/end pair ever straddles a tick
-            for f in ([10 ** 9, 2_500_000_000, 10 ** 10] if not big else pfreqs):
+            for f in ([10 ** 9, 2_500_000_000, 10 ** 10] if (not big or q >= 10000) else pfreqs):
                 if q * 10 ** 12 // f == 0:
                     continue
                 scs.append(sc_("precision", p, freq=f, step=r, quantum=q, start=start,
